@@ -214,6 +214,8 @@ type blin struct {
 
 // bcond: once a <= b is derivable, the consequences hold.
 type bcond struct {
+	two    bool // a second premise a2 <= b2 must hold as well
+	a2, b2 blin
 	a, b  blin
 	then  [][2]blin // each pair: [0] <= [1]
 	fired bool
@@ -678,6 +680,13 @@ func (p *bndProver) expand(n bnode) {
 					p.le(bnorm(pair[0]), me)
 				}
 			}
+			// a product of two non-negative factors is non-negative, and at least as large as
+			// one factor when the other is >= 1
+			p.conds = append(p.conds, &bcond{a: zeroLin, b: a, two: true, a2: zeroLin, b2: b, then: [][2]blin{{zeroLin, me}}})
+			p.conds = append(p.conds, &bcond{a: blin{c: 1}, b: a, two: true, a2: zeroLin, b2: b, then: [][2]blin{{b, me}}})
+			p.conds = append(p.conds, &bcond{a: blin{c: 1}, b: b, two: true, a2: zeroLin, b2: a, then: [][2]blin{{a, me}}})
+			p.touch(a.n)
+			p.touch(b.n)
 		case token.QUO:
 			if k, ok := intConstOf(x.Y); ok && k >= 1 && structNonNeg(x.X, map[ssa.Value]bool{}) {
 				p.le(me, a)
@@ -813,7 +822,46 @@ func (p *bndProver) indexSum(x *ssa.BinOp, me blin) {
 	}
 }
 
+// parallelPhi: an integer phi that travels with a string/slice phi of the same block (a position
+// and the text it was found in, both replaced on every iteration): when over every incoming edge
+// the incoming position is bounded by the length of the incoming text (pos_e <= len(s_e) + c, shown
+// at the end of the predecessor), the phis are related in the same way.
+func (p *bndProver) parallelPhi(x *ssa.Phi, me blin) {
+	if p.depth >= 2 {
+		return
+	}
+	for _, ins := range x.Block().Instrs {
+		s, ok := ins.(*ssa.Phi)
+		if !ok {
+			break
+		}
+		if s == x || !(isStringType(s.Type()) || isSliceOrArray(s.Type())) || len(s.Edges) != len(x.Edges) {
+			continue
+		}
+		for _, cst := range []int64{-1, 0} {
+			all := true
+			for i := range x.Edges {
+				pr := x.Block().Preds[i]
+				q := newBndProver(p.c, pr.Instrs[len(pr.Instrs)-1], p.depth+1)
+				a := bnorm(x.Edges[i])
+				b := lenNode(s.Edges[i])
+				q.saturate(a, b)
+				if !q.holds(a, blin{b.n, b.c + cst}) {
+					all = false
+					break
+				}
+			}
+			if all {
+				l := lenNode(s)
+				p.le(me, blin{l.n, l.c + cst})
+				break
+			}
+		}
+	}
+}
+
 func (p *bndProver) phiFacts(x *ssa.Phi, me blin) {
+	p.parallelPhi(x, me)
 	var inits []blin
 	var from []*ssa.BasicBlock
 	up, down := true, true
@@ -958,22 +1006,42 @@ func (p *bndProver) paramFacts(x *ssa.Parameter, me blin) {
 	if !ok || idx < 0 || len(sites) == 0 {
 		return
 	}
-	lower := int64(1 << 40)
+	lower, upper := int64(1<<40), int64(-(1 << 40))
+	haveLower, haveUpper := true, true
 	for _, s := range sites {
 		args := s.Common().Args
 		if idx >= len(args) {
 			return
 		}
 		q := newBndProver(p.c, s, p.depth+1)
-		lb, ok := q.lowerBound(bnorm(args[idx]))
-		if !ok {
-			return
+		a := bnorm(args[idx])
+		q.saturate(a)
+		if lb, ok := q.lower(a); ok {
+			if lb < lower {
+				lower = lb
+			}
+		} else {
+			haveLower = false
 		}
-		if lb < lower {
-			lower = lb
+		// a constant upper bound at every call site (clamp(n, 1, 3) <= 3)
+		if a.n.v == nil {
+			if a.c > upper {
+				upper = a.c
+			}
+		} else if ub, ok := q.dist(a.n)[bnode{}]; ok {
+			if ub+a.c > upper {
+				upper = ub + a.c
+			}
+		} else {
+			haveUpper = false
 		}
 	}
-	p.le(blin{c: lower}, me)
+	if haveLower {
+		p.le(blin{c: lower}, me)
+	}
+	if haveUpper {
+		p.le(me, blin{c: upper})
+	}
 }
 
 // staticCallers: the call sites of f when every way of calling f inside the module is a
@@ -1018,7 +1086,7 @@ type bjoin struct {
 // joinEdges: for every node t known to the prover (and 0): if every incoming value e satisfies
 // e - t <= c_e at the end of its predecessor, then v - t <= max c_e; likewise from below.
 func (p *bndProver) joinEdges(j *bjoin) bool {
-	if p.depth >= 2 {
+	if p.depth >= 3 {
 		return false
 	}
 	if j.done == nil {
@@ -1168,7 +1236,7 @@ func (p *bndProver) lower(t blin) (int64, bool) {
 func (p *bndProver) derive() bool {
 	news := false
 	for _, c := range p.conds {
-		if !c.fired && p.holds(c.a, c.b) {
+		if !c.fired && p.holds(c.a, c.b) && (!c.two || p.holds(c.a2, c.b2)) {
 			c.fired = true
 			for _, t := range c.then {
 				if p.le(t[0], t[1]) {
@@ -2142,6 +2210,9 @@ func (c *Ctx) retSummary(f *ssa.Function, idx int, depth int, consts map[int]int
 			} else if kk, has := q.dist(cd.n)[e.n]; has { // cand - e.n <= kk  => e >= cand - kk + e.c
 				lo = acc{true, -kk + e.c}
 			}
+			if d := os.Getenv("BND_SUMMARY"); d != "" && strings.Contains(shortFn(f), d) {
+				fmt.Printf("BND_SUMMARY   %s ret@%s cand(param=%d ln=%v field=%s): up=%v lo=%v\n", shortFn(f), c.W.Pos(ret.Pos()), cd.param, cd.ln, cd.field, up, lo)
+			}
 			if first {
 				ups[i], los[i] = up, lo
 			} else {
@@ -2171,6 +2242,9 @@ func (c *Ctx) retSummary(f *ssa.Function, idx int, depth int, consts map[int]int
 		}
 	}
 	c.bret[k] = out
+	if d := os.Getenv("BND_SUMMARY"); d != "" && strings.Contains(shortFn(f), d) {
+		fmt.Printf("BND_SUMMARY %s result#%d consts=%v: %+v\n", shortFn(f), idx, consts, out)
+	}
 	return out
 }
 
@@ -2185,6 +2259,9 @@ func (p *bndProver) summaryFacts(call *ssa.Call, idx int, me blin) {
 		if k, ok := intConstOf(a); ok && i < len(callee.Params) {
 			consts[i] = k
 		}
+	}
+	if p.depth == 0 {
+		p.c.warmSummaries(callee, map[*ssa.Function]bool{})
 	}
 	sum := p.c.retSummary(callee, idx, p.depth, nil)
 	if len(consts) > 0 {
@@ -2238,6 +2315,39 @@ func defBefore(v ssa.Value, b *ssa.BasicBlock) bool {
 // dominatedByCallTo: a static call to the named module function is executed before ins on
 // every path.
 func dominatedByCallTo(ins ssa.Instruction, name string) bool {
+	if dominatedByCallTo1(ins, name) {
+		return true
+	}
+	// the construct lives in a helper: every call of the helper comes after the call
+	if bndCtx == nil {
+		return false
+	}
+	f := ins.Parent()
+	for depth := 0; depth < 3 && f != nil; depth++ {
+		sites, static := bndCtx.staticCallers(f)
+		if !static || len(sites) == 0 {
+			return false
+		}
+		all := true
+		var next *ssa.Function
+		for _, s := range sites {
+			if !dominatedByCallTo1(s, name) {
+				all = false
+				next = s.Parent()
+			}
+		}
+		if all {
+			return true
+		}
+		if len(sites) != 1 {
+			return false
+		}
+		f = next
+	}
+	return false
+}
+
+func dominatedByCallTo1(ins ssa.Instruction, name string) bool {
 	f := ins.Parent()
 	for _, b := range f.Blocks {
 		if b != ins.Block() && !b.Dominates(ins.Block()) {
@@ -2559,6 +2669,51 @@ func (p *bndProver) boolSummaryFacts(call *ssa.Call, truth bool) {
 			p.le(node, blin{c: f.c})
 		} else {
 			p.le(blin{c: f.c}, node)
+		}
+	}
+}
+
+// warmSummaries computes the return summaries of the module functions f calls (callees first),
+// so that the nested provers used while summarising f find them in the cache instead of running
+// into the nesting limit.
+func (c *Ctx) warmSummaries(f *ssa.Function, seen map[*ssa.Function]bool) {
+	if seen[f] || len(seen) > 40 {
+		return
+	}
+	seen[f] = true
+	for _, ins := range instrsIn(f) {
+		call, ok := ins.(*ssa.Call)
+		if !ok {
+			continue
+		}
+		g := call.Call.StaticCallee()
+		if g == nil || g == f || len(g.Blocks) == 0 || !c.G.InSc[g] {
+			continue
+		}
+		res := g.Signature.Results()
+		hasInt := false
+		for i := 0; i < res.Len(); i++ {
+			if isSignedInt(res.At(i).Type()) {
+				hasInt = true
+			}
+		}
+		if !hasInt {
+			continue
+		}
+		c.warmSummaries(g, seen)
+		consts := map[int]int64{}
+		for i, a := range call.Call.Args {
+			if k, ok := intConstOf(a); ok && i < len(g.Params) {
+				consts[i] = k
+			}
+		}
+		for i := 0; i < res.Len(); i++ {
+			if isSignedInt(res.At(i).Type()) {
+				c.retSummary(g, i, 0, nil)
+				if len(consts) > 0 {
+					c.retSummary(g, i, 0, consts)
+				}
+			}
 		}
 	}
 }
